@@ -193,11 +193,13 @@ mod h {
     fn build(n: usize, closed: bool, insert_at: Option<usize>) -> RouteContext {
         let mut tour = Tour::default();
         tour.set_start(plain_act(0, None));
-        if closed { tour.set_end(plain_act(0, None)); }
+        // the vehicle ends at location 2, NOT where it starts (location 0): d(start, end) is an arbitrary matrix entry
+        if closed { tour.set_end(plain_act(2, None)); }
         let mut k = 0;
         while k < n { tour.insert_last(plain_act(1 + k, Some(k as u8))); k += 1; }
         if let Some(i) = insert_at { tour.insert_at(plain_act(3, Some(9)), i); }
-        RouteContext { route: Route { actor: actor(closed, 1e9), tour }, state: RouteState::default(), stale: false }
+        let a = Arc::new(Actor { detail: ActorDetail { start: Some(VehiclePlace { location: 0 }), end: if closed { Some(VehiclePlace { location: 2 }) } else { None }, time: TimeWindow { start: 0., end: if closed { 1e9 } else { Float::MAX } } } });
+        RouteContext { route: Route { actor: a, tour }, state: RouteState::default(), stale: false }
     }
     fn estimate_equals_delta(n: usize, closed: bool, leg: usize) {
         let m = any_matrix(false);
